@@ -191,13 +191,20 @@ def gen_cases(rng, n, quick, extreme=False):
     n_big = 8 if quick else 60
     n_sliver = 16 if quick else 160
     n_sliver3 = 32 if quick else 320
+    n_nontile = 28 if quick else 420
     cases = [av.vary(rng, ac.gen_hist_template(rng, i)) for i in range(n_tmpl)]
     cases += [av.vary(rng, av.gen_big(rng, quick)) for _ in range(n_big)]
     cases += [av.vary(rng, av.gen_sliver2(rng)) for _ in range(n_sliver)]
     s3 = rng.randrange(10 ** 4)
     cases += [av.vary(rng, av.gen_sliver3(rng, s3 + i)) for i in range(n_sliver3)]
-    cases += [av.vary(rng, ac.gen_hist_case(rng)) for _ in range(n_hist - n_tmpl - n_big - n_sliver - n_sliver3)]
-    chains = [ac.gen_case(rng) for _ in range(n - n_hist)]
+    # layouts that do not tile their bounding box (shifted rows of equal bricks, gaps, L shapes): chains and histories
+    nt = rng.randrange(10 ** 4)
+    nontile = [av.gen_nontiling(rng, nt + i) for i in range(n_nontile)]
+    cases += [av.vary(rng, c) for c in nontile if ac.is_hist(c)]
+    cases += [av.vary(rng, ac.gen_hist_case(rng)) for _ in range(n_hist - n_tmpl - n_big - n_sliver - n_sliver3 - n_nontile // 2)]
+    chains = [c for c in nontile if not ac.is_hist(c)]
+    chains += [ac.gen_case(rng) for _ in range(n - n_hist - len(chains))]
+    rng.shuffle(chains)
     if extreme:
         cases = [ac.extremize(rng, c) if rng.random() < 0.3 else c for c in cases]
         chains = [ac.extremize(rng, c) if rng.random() < 0.3 else c for c in chains]
@@ -228,7 +235,9 @@ def run(ctx, out, replay=None):
                 "uniform_refinement_depth / griddify returns 1000, 1001, 1002 ... 1100, 2048, 4100 cells (thorough; some "
                 "followed by a second operation on the large result, some from exactly representable sides; quick: two results "
                 "of 1024-1026 cells); (d) layouts where the 1% rule of griddify answers differently for a cell and for the pieces "
-                "the perpendicular cuts leave (see C12); non-trivial = at least two cells; distinct by hash")
+                "the perpendicular cuts leave (see C12); (e) layouts that do not tile their bounding box (rows / columns of equal "
+                "bricks shifted against each other, gaps, rows of different brick sizes, L-shaped unions, pinwheels, grids with "
+                "holes; chains and histories, see C12); non-trivial = at least two cells; distinct by hash")
     cases = []
     if replay and "case" in replay:
         cases.append(fr.unjson(replay["case"]))
